@@ -1218,10 +1218,19 @@ func (s *Server) subscriptionsListen(ctx context.Context, req *SubscriptionsList
 	}
 	s.mu.Unlock()
 	defer func() {
+		// Remove only the subscriptions that still belong to this listen: the
+		// session may have other listen requests open (registered under their
+		// own request IDs), which must keep receiving notifications.
 		s.mu.Lock()
-		delete(s.toolChangeSubscriptions, req.Session)
-		delete(s.promptChangeSubscriptions, req.Session)
-		delete(s.resourceChangeSubscriptions, req.Session)
+		if id, ok := s.toolChangeSubscriptions[req.Session]; ok && id == requestID {
+			delete(s.toolChangeSubscriptions, req.Session)
+		}
+		if id, ok := s.promptChangeSubscriptions[req.Session]; ok && id == requestID {
+			delete(s.promptChangeSubscriptions, req.Session)
+		}
+		if id, ok := s.resourceChangeSubscriptions[req.Session]; ok && id == requestID {
+			delete(s.resourceChangeSubscriptions, req.Session)
+		}
 		s.mu.Unlock()
 	}()
 
